@@ -177,6 +177,9 @@ def profile(rng):
     p = Profile()
     p.handle_share = 0.6
     p.meas = ["m0", "m1", "_default", "m2"]
+    if rng.random() < 0.3:
+        # names that differ only in surrounding blanks / case, prefixes of each other, names looking like other things
+        p.meas = ["m0", " m0", "m0 ", "M0", "m", "m00", "_default", "None", "m0\t"]
     p.getter_probes = True
     p.n_random_probes = 3
     p.time_probes = False
